@@ -9,6 +9,7 @@ import (
 	"io"
 
 	"github.com/pion/interceptor"
+	"github.com/pion/interceptor/internal/verifhook"
 	"github.com/pion/rtcp"
 	"github.com/pion/rtp"
 )
@@ -16,6 +17,7 @@ import (
 // MockStream is a helper struct for testing interceptors.
 type MockStream struct {
 	interceptor interceptor.Interceptor
+	verifInfo   *interceptor.StreamInfo
 
 	rtcpReader interceptor.RTCPReader
 	rtcpWriter interceptor.RTCPWriter
@@ -48,6 +50,7 @@ type RTCPWithError struct {
 func NewMockStream(info *interceptor.StreamInfo, i interceptor.Interceptor) *MockStream { //nolint
 	mockStream := &MockStream{
 		interceptor:     i,
+		verifInfo:       info,
 		rtcpIn:          make(chan []rtcp.Packet, 1000),
 		rtpIn:           make(chan *rtp.Packet, 1000),
 		rtcpOutModified: make(chan []rtcp.Packet, 1000),
@@ -55,8 +58,10 @@ func NewMockStream(info *interceptor.StreamInfo, i interceptor.Interceptor) *Moc
 		rtcpInModified:  make(chan RTCPWithError, 1000),
 		rtpInModified:   make(chan RTPWithError, 1000),
 	}
+	verifhook.Gate("mock.new", mockStream.verifEv(nil, nil, nil, nil, nil))
 	mockStream.rtcpWriter = i.BindRTCPWriter(
 		interceptor.RTCPWriterFunc(func(pkts []rtcp.Packet, _ interceptor.Attributes) (int, error) {
+			verifhook.Gate("mock.rtcp.wire", mockStream.verifEv(nil, nil, pkts, nil, nil))
 			select {
 			case mockStream.rtcpOutModified <- pkts:
 			default:
@@ -69,17 +74,24 @@ func NewMockStream(info *interceptor.StreamInfo, i interceptor.Interceptor) *Moc
 		func(b []byte, attrs interceptor.Attributes) (int, interceptor.Attributes, error) {
 			pkts, ok := <-mockStream.rtcpIn
 			if !ok {
+				verifhook.Gate("mock.rtcp.in", mockStream.verifEv(nil, nil, nil, nil, io.EOF))
+
 				return 0, nil, io.EOF
 			}
 
 			marshaled, err := rtcp.Marshal(pkts)
 			if err != nil {
+				verifhook.Gate("mock.rtcp.in", mockStream.verifEv(nil, nil, pkts, nil, io.EOF))
+
 				return 0, nil, io.EOF
 			} else if len(marshaled) > len(b) {
+				verifhook.Gate("mock.rtcp.in", mockStream.verifEv(nil, nil, pkts, nil, io.ErrShortBuffer))
+
 				return 0, nil, io.ErrShortBuffer
 			}
 
 			copy(b, marshaled)
+			verifhook.Gate("mock.rtcp.in", mockStream.verifEv(nil, nil, pkts, b[:len(marshaled)], nil))
 
 			return len(marshaled), attrs, err
 		},
@@ -87,6 +99,7 @@ func NewMockStream(info *interceptor.StreamInfo, i interceptor.Interceptor) *Moc
 	mockStream.rtpWriter = i.BindLocalStream(
 		info, interceptor.RTPWriterFunc(
 			func(header *rtp.Header, payload []byte, _ interceptor.Attributes) (int, error) {
+				verifhook.Gate("mock.rtp.wire", mockStream.verifEv(header, payload, nil, nil, nil))
 				select {
 				case mockStream.rtpOutModified <- &rtp.Packet{Header: *header, Payload: payload}:
 				default:
@@ -101,17 +114,24 @@ func NewMockStream(info *interceptor.StreamInfo, i interceptor.Interceptor) *Moc
 			func(b []byte, attrs interceptor.Attributes) (int, interceptor.Attributes, error) {
 				p, ok := <-mockStream.rtpIn
 				if !ok {
+					verifhook.Gate("mock.rtp.in", mockStream.verifEv(nil, nil, nil, nil, io.EOF))
+
 					return 0, nil, io.EOF
 				}
 
 				marshaled, err := p.Marshal()
 				if err != nil {
+					verifhook.Gate("mock.rtp.in", mockStream.verifEv(&p.Header, p.Payload, nil, nil, io.EOF))
+
 					return 0, nil, io.EOF
 				} else if len(marshaled) > len(b) {
+					verifhook.Gate("mock.rtp.in", mockStream.verifEv(&p.Header, p.Payload, nil, nil, io.ErrShortBuffer))
+
 					return 0, nil, io.ErrShortBuffer
 				}
 
 				copy(b, marshaled)
+				verifhook.Gate("mock.rtp.in", mockStream.verifEv(&p.Header, p.Payload, nil, b[:len(marshaled)], nil))
 
 				return len(marshaled), attrs, err
 			},
@@ -122,6 +142,7 @@ func NewMockStream(info *interceptor.StreamInfo, i interceptor.Interceptor) *Moc
 		buf := make([]byte, 1500)
 		for {
 			i, _, err := mockStream.rtcpReader.Read(buf, interceptor.Attributes{})
+			verifhook.Gate("mock.rtcp.read", mockStream.verifEv(nil, nil, nil, buf[:max(i, 0)], err))
 			if err != nil {
 				if !errors.Is(err, io.EOF) {
 					mockStream.rtcpInModified <- RTCPWithError{Err: err}
@@ -144,6 +165,7 @@ func NewMockStream(info *interceptor.StreamInfo, i interceptor.Interceptor) *Moc
 		buf := make([]byte, 1500)
 		for {
 			i, _, err := mockStream.rtpReader.Read(buf, interceptor.Attributes{})
+			verifhook.Gate("mock.rtp.read", mockStream.verifEv(nil, nil, nil, buf[:max(i, 0)], err))
 			if err != nil {
 				if err.Error() == "attempt to pop while buffering" {
 					continue
@@ -171,25 +193,31 @@ func NewMockStream(info *interceptor.StreamInfo, i interceptor.Interceptor) *Moc
 
 // WriteRTCP writes a batch of rtcp packet to the stream, using the interceptor.
 func (s *MockStream) WriteRTCP(pkts []rtcp.Packet) error {
+	verifhook.Gate("mock.rtcp.write", s.verifEv(nil, nil, pkts, nil, nil))
 	_, err := s.rtcpWriter.Write(pkts, interceptor.Attributes{})
+	verifhook.Gate("mock.rtcp.written", s.verifEv(nil, nil, pkts, nil, err))
 
 	return err
 }
 
 // WriteRTP writes an rtp packet to the stream, using the interceptor.
 func (s *MockStream) WriteRTP(p *rtp.Packet) error {
+	verifhook.Gate("mock.rtp.write", s.verifEv(&p.Header, p.Payload, nil, nil, nil))
 	_, err := s.rtpWriter.Write(&p.Header, p.Payload, interceptor.Attributes{})
+	verifhook.Gate("mock.rtp.written", s.verifEv(&p.Header, p.Payload, nil, nil, err))
 
 	return err
 }
 
 // ReceiveRTCP schedules a new rtcp batch, so it can be read by the stream.
 func (s *MockStream) ReceiveRTCP(pkts []rtcp.Packet) {
+	verifhook.Gate("mock.rtcp.feed", s.verifEv(nil, nil, pkts, nil, nil))
 	s.rtcpIn <- pkts
 }
 
 // ReceiveRTP schedules a rtp packet, so it can be read by the stream.
 func (s *MockStream) ReceiveRTP(packet *rtp.Packet) {
+	verifhook.Gate("mock.rtp.feed", s.verifEv(&packet.Header, packet.Payload, nil, nil, nil))
 	s.rtpIn <- packet
 }
 
@@ -215,8 +243,10 @@ func (s *MockStream) ReadRTP() chan RTPWithError {
 
 // Close closes the stream and the underlying interceptor.
 func (s *MockStream) Close() error {
+	verifhook.Gate("mock.close", s.verifEv(nil, nil, nil, nil, nil))
 	close(s.rtcpIn)
 	close(s.rtpIn)
+	defer func() { verifhook.Gate("mock.closed", s.verifEv(nil, nil, nil, nil, nil)) }()
 
 	return s.interceptor.Close()
 }
